@@ -51,7 +51,7 @@ fn run_one(log: &mut Log, tag: &str, text: &[u8], alpha: &[u8], k: u32, s: usize
         let l = less(&b, &alphabet);
         let o = Occ::new(&b, k, &alphabet);
         let n = b.len();
-        let saj = usizes(&sa);
+        let saj = if n <= 5000 { usizes(&sa) } else { usizes(&[]) };
         parts = Some((sa, b, l, o));
         json!({ "n": n, "sa": saj })
     });
@@ -510,11 +510,60 @@ pub fn drive(log: &mut Log) {
         log.oblige("bwt_run_ge_256_occ_rate_gt_256");
     }
 
+    // (g) hidden process-wide state: consecutive indexes in one process over alphabets of equal size and
+    //     equal largest symbol but different members, in both orders
+    for g in 0..log.opts.n(4, 12) {
+        case += 1;
+        if !log.mine(case) {
+            continue;
+        }
+        let mut rng = Rng::new(seed, 28, case);
+        let mut group: Vec<&[u8]> = vec![b"$ACGT", b"$ACNT", b"$AGNT", b"$CGNT"];
+        if g % 2 == 1 {
+            group.reverse();
+        }
+        for al in group {
+            let letters: Vec<u8> = al.iter().cloned().filter(|&c| c != b'$').collect();
+            let n = rng.range(3, 90) as usize;
+            let mut text = rng.seq(n - 1, &letters);
+            text.push(b'$');
+            let mut pats: Vec<Vec<u8>> = letters.iter().map(|&c| vec![c]).collect();
+            for _ in 0..4 {
+                let a = rng.below((n - 1) as u64) as usize;
+                let l = rng.range(1, 6) as usize;
+                pats.push(text[a..(a + l).min(n - 1)].to_vec());
+            }
+            pats.retain(|p| !p.is_empty());
+            run_one(log, "glob", &text, al, [1u32, 3][(g % 2) as usize], [0usize, 2][(g % 2) as usize], (g % 3) as u8, &pats);
+        }
+        log.oblige("same_size_same_max_different_alphabets_in_one_process");
+    }
+
+    // (h) an FM index over a collection of more than 65,535 sentinel-terminated reads (32 bit ranks in
+    //     suffix_array's width dispatch); the suffix array is too long to log, searches are judged
+    {
+        case += 1;
+        if log.mine(case) {
+            let mut rng = Rng::new(seed, 29, case);
+            let reads = 65_600usize;
+            let mut text: Vec<u8> = Vec::with_capacity(reads * 3);
+            for _ in 0..reads {
+                text.push(*rng.pick(b"ACGT"));
+                text.push(*rng.pick(b"ACGT"));
+                text.push(b'$');
+            }
+            let pats: Vec<Vec<u8>> = vec![b"AC".to_vec(), b"T".to_vec(), b"GAC".to_vec(), b"N".to_vec(), b"GG".to_vec(), b"NCA".to_vec()];
+            run_one(log, "coll", &text, b"$ACGTN", 3, 0, 0, &pats);
+            log.oblige("fm_over_more_than_65535_reads");
+        }
+    }
+
     // (e) closed-form unary family beyond 2^24 rows, positions through the sampled suffix array
     let un: &[(usize, u32, usize)] = if th {
-        &[((1 << 24) + 1, 128, 32), ((1 << 24) + 1, 3, 64), ((1 << 24) + 1, 65, 2), ((1 << 24) + 2, 128, 3)]
+        &[((1 << 24) + 1, 128, 32), ((1 << 24) + 1, 3, 64), ((1 << 24) + 1, 65, 2), ((1 << 24) + 2, 128, 3), ((1 << 24) + 1, 128, 3),
+          ((1 << 24) + 1, 128, 5), ((1 << 24) + 1, 128, 7)]
     } else {
-        &[((1 << 24) + 1, 128, 32)]
+        &[((1 << 24) + 1, 128, 32), ((1 << 24) + 1, 128, 2)]
     };
     for &(n, k, s) in un {
         case += 1;
